@@ -14,6 +14,7 @@
 (*   verifymu the verdict on (pk, mu, sigma) equals Verify_internal from line 8  *)
 (*   pverify  public verifier: prefix check, then ML-DSA.Verify with empty ctx   *)
 (*   signed   a signature returned by a (hedged) signer verifies                 *)
+(*   signfail a signer failed, panicked or did not return on a valid key         *)
 (*   prehash  ComputePrehash = 0xFF || key id || mu                              *)
 (*   composite  composite verifier accepts iff both components verify            *)
 EXTENDS MLDSA, ECDSASig, Json, IOUtils
@@ -60,10 +61,12 @@ Judge(e) ==
     [] e.ev = "sign" ->
          LET want == BytesToHex(SignInternal(B(e.sk), B(e.mp), B(e.rnd), ParamSet(e.set)))
          IN  IF e.panic THEN <<"signing panicked", want>>
+             ELSE IF e.hung THEN <<"signing did not return within the time limit", want>>
              ELSE IF e.sig # want THEN <<"signature differs from Sign_internal", want>> ELSE <<>>
     [] e.ev = "signmu" ->
          LET want == BytesToHex(SignMu(B(e.sk), B(e.mu), B(e.rnd), ParamSet(e.set)))
          IN  IF e.panic THEN <<"signing panicked", want>>
+             ELSE IF e.hung THEN <<"signing did not return within the time limit", want>>
              ELSE IF e.sig # want THEN <<"signature differs from Sign_internal (external mu)", want>> ELSE <<>>
     [] e.ev = "verify" ->
          Verdict("Verify_internal", VerifyInternal(B(e.pk), B(e.mp), B(e.sig), ParamSet(e.set)), e)
@@ -78,11 +81,13 @@ Judge(e) ==
          LET pre == Prefix(e.variant, e.id)
              sg  == B(e.sig)
          IN  IF e.panic THEN <<"signing panicked", "">>
+             ELSE IF e.hung THEN <<"signing did not return within the time limit", "">>
              ELSE IF e.err THEN <<"signing failed on a valid key", "">>
              ELSE IF ~IsPrefixOf(pre, sg) THEN <<"signature lacks the key's output prefix", BytesToHex(pre)>>
              ELSE IF ~Verify(B(e.pk), B(e.msg), Drop(sg, Len(pre)), <<>>, ParamSet(e.set))
                   THEN <<"produced signature does not verify under FIPS 204", "TRUE">>
              ELSE <<>>
+    [] e.ev = "signfail" -> <<"signing failed, panicked or did not return on a valid key", e.what>>
     [] e.ev = "prehash" ->
          LET want == BytesToHex(<<255>> \o B(e.id) \o Mu(H(B(e.pk), 64), MPrime(B(e.msg), <<>>)))
          IN  IF e.panic \/ e.err THEN <<"ComputePrehash failed", want>>
